@@ -129,12 +129,21 @@ Fixpoint spec_dgrams (tbl : list entry) (l : list ssn) (ds : list dgram) : list 
       (l2, match w with Some x => x :: ws | None => ws end)
   end.
 
-Definition spec_event (tbl : list entry) (l : list ssn) (ev : event) : list ssn * list (N * list N) :=
+(* the configuration as far as the property needs it: who is (still) a peer.  A removed peer has no sessions,
+   no allowed-IPs, and nobody can complete a handshake as that peer. *)
+Definition gone_b (gone : list N) (p : N) : bool := existsb (N.eqb p) gone.
+Definition live_tbl (tbl : list entry) (gone : list N) : list entry :=
+  List.filter (fun e => negb (gone_b gone (e_owner e))) tbl.
+
+Definition spec_event (tbl : list entry) (gone : list N) (l : list ssn) (ev : event) : list ssn * list (N * list N) :=
   match ev with
+  | Remove p => (List.filter (fun s => negb (n_peer s =? p)) l, [])
   | Handshake p idx key =>
+      if gone_b gone p then (l, []) else
       ({| n_peer := p; n_idx := idx; n_key := key; n_age := 0;
           n_seen := {| seen := [0]; mx := 0 |}; n_role := 1 |} :: retire_confirmed p l, [])
   | HandshakeUnconf p idx key =>
+      if gone_b gone p then (l, []) else
       ({| n_peer := p; n_idx := idx; n_key := key; n_age := 0; n_seen := sempty; n_role := 2 |} :: retire_offered p l, [])
   | Restart => ([], [])
   | Age p ns =>
@@ -142,7 +151,7 @@ Definition spec_event (tbl : list entry) (l : list ssn) (ev : event) : list ssn 
                      then {| n_peer := n_peer s; n_idx := n_idx s; n_key := n_key s; n_age := n_age s + ns; n_seen := n_seen s;
                              n_role := n_role s |}
                      else s) l, [])
-  | Dgrams ds => spec_dgrams tbl l ds
+  | Dgrams ds => spec_dgrams (live_tbl tbl gone) l ds
   end.
 
 (* observed = some interleaving of the per-peer sequences *)
@@ -168,12 +177,13 @@ Definition per_peer (np : N) (ws : list (N * list N)) : list (list (list N)) :=
 Definition writes_ok (np : N) (permitted : list (N * list N)) (obs : list (list N)) : bool :=
   forallb (fun w => fst w <? np) permitted && interleaves obs (per_peer np permitted).
 
-Fixpoint holds_trace (tbl : list entry) (np : N) (l : list ssn) (evs : list event)
+Fixpoint holds_trace (tbl : list entry) (np : N) (gone : list N) (l : list ssn) (evs : list event)
          (obs : list (list (list N))) (i : N) : option N :=
   match evs, obs with
   | [], _ => None
   | ev :: evs', o :: obs' =>
-      let '(l', w) := spec_event tbl l ev in
-      if writes_ok np w o then holds_trace tbl np l' evs' obs' (i + 1) else Some i
+      let '(l', w) := spec_event tbl gone l ev in
+      let gone' := match ev with Remove p => p :: gone | _ => gone end in
+      if writes_ok np w o then holds_trace tbl np gone' l' evs' obs' (i + 1) else Some i
   | _ :: _, [] => Some i
   end.
